@@ -873,6 +873,8 @@ FAULT_CORPUS = [
     "24 33 1 raw b:646f2067312073780d;b:1b5b41;b:08;b:0d",
     # recall of a line into a smaller room, edit, resubmit; Down past the newest
     "6 32 1 raw b:6162630d;b:78;b:1b5b41;b:1b5b44;b:08;b:0d;b:1b5b41;b:1b5b42;b:1b5b42",
+    # Enter sent as a pair
+    "16 32 1 raw b:61620d0a;b:63640a0d;b:0d0a",
 ]
 
 
@@ -929,6 +931,8 @@ def c14(ck):
         for op in ops:
             if op.startswith("b:"):
                 hx_ = op[2:]
+                if hx_ == ".":
+                    continue              # an empty read: no call of process_byte, no step
                 flat += ["b:" + hx_[i:i + 2] for i in range(0, len(hx_), 2)]
             else:
                 flat.append(op)
@@ -941,14 +945,28 @@ def c14(ck):
                     same_calls = mst is not None and len(mst) == len(st) and all(
                         [x[0] for x in a["sink"].split(",")] == [x[0] for x in m_["sink"].split(",")] for a, m_ in zip(st[:k + 1], mst[:k + 1]))
                     (cases if same_calls else cases_only_impl).append(c)
-                    nofault[c] = ((st[k - 1]["text"], st[k - 1]["cur"]), (st[k]["text"], st[k]["cur"]), k)
+                    nofault[c] = ((st[k - 1]["text"], st[k - 1]["cur"]), (st[k]["text"], st[k]["cur"]), k, False)
+                    if flat[k - 1] in ("b:0d", "b:0a"):
+                        # the failed key is a line terminator: the other terminator right after it still belongs to the same Enter
+                        # (decoding depends on the byte sequence only, not on whether the sink worked)
+                        other = "b:0a" if flat[k - 1] == "b:0d" else "b:0d"
+                        c2 = " ".join(head) + " " + ";".join(flat[:k - 1] + ["x:%d:%s" % (j, mode), flat[k - 1], "x:off", other, "b:78", "b:0d"])
+                        (cases if same_calls else cases_only_impl).append(c2)
+                        nofault[c2] = (nofault[c][0], nofault[c][1], k, True)
 
     def oracle(case, io):
         st = parse_steps(io)
         if st is None:
             return "malformed session output / crash: " + io[:200]
-        before, after_ok, k = nofault[case]
+        before, after_ok, k, paired = nofault[case]
         f = st[k]
+        if paired and k + 1 < len(st):
+            # step k+1 is the second byte of a CR LF / LF CR pair whose first byte was being handled when the sink failed
+            pb = st[k + 1]
+            if pb["calls"] != "-" or pb["sink"] != "-" or (pb["text"], pb["cur"]) != (f["text"], f["cur"]):
+                return ("the second byte of a CR LF / LF CR pair, arriving after the sink failed during the first, was not read as part of the same Enter: "
+                        "it wrote %s, dispatched %s and left the line %s at %s (was %s at %s)" % (pb["sink"], pb["calls"], pb["text"], pb["cur"], f["text"], f["cur"]))
+            st = st[:k + 1] + st[k + 2:]
         for k_, s_ in enumerate(st):
             if s_["r"] == "err" and "XW" not in s_["sink"] and "XF" not in s_["sink"]:
                 return "call %d returned Err although no sink call failed in it; sink calls: %s" % (k_, s_["sink"])
@@ -1493,9 +1511,34 @@ def c16(ck):
             for nm in hid_[:4] + vis_[1:3]:
                 for pre in {nm[:1], nm[:-1]} - {""}:
                     ses.append("40 32 1 d%d b:%s;b:09;b:0d;b:1b5b41;b:0d" % (k, gen.hx(pre.encode("utf-8"))))
+    # sink faults: sessions that use none of the three facilities (no Up/Down, no Tab, no help-shaped line), every sink call of every key
+    # failed once / for good on the full build, then a lone Enter and `x` Enter with a working sink. The fault position is a sink-call
+    # number, so these are compared ACROSS BUILDS only (same code, same calls), not with the model.
+    fault_base = ["16 32 1 raw b:6563686f206162630d", "24 33 1 raw b:646f207361622070322078710d", "16 32 1 raw b:6c6e20610d;b:6e6c20620d",
+                  "16 32 1 raw b:70726f6d707420620d;b:6d696420610d", "16 33 1 raw b:6e6f7065206120620d", "16 32 0 raw b:7365742061;b:1b5b44;b:08;b:0d0a",
+                  "16 32 1 raw b:6162;w:s68690a,s78;b:0d", "16 32 1 raw b:6162;p:2;b:0d"]
+    fault_cases = set()
+    for b, o in zip(fault_base, core.run_engine(bins["hac"], "ses", fault_base)):
+        st = parse_steps(o)
+        if st is None:
+            continue
+        head, ops = b.split(" ", 4)[:4], b.split(" ", 4)[4].split(";")
+        flat = []
+        for op in ops:
+            if op.startswith("b:"):
+                flat += ["b:" + op[2:][i:i + 2] for i in range(0, len(op[2:]), 2)]
+            else:
+                flat.append(op)
+        for k in range(1, len(st)):
+            for j in range(0 if st[k]["sink"] == "-" else len(st[k]["sink"].split(","))):
+                for mode in ("once", "perm"):
+                    fault_cases.add(" ".join(head) + " " + ";".join(flat[:k - 1] + ["x:%d:%s" % (j, mode), flat[k - 1], "x:off", "b:0d", "b:78", "b:0d"]))
+    ses += sorted(fault_cases)
     base = core.run_engine(bins["hac"], "ses", ses)
 
     def uses(case):
+        if case in fault_cases:
+            return {"h": False, "a": False, "c": False}
         ops = case.split(" ", 4)[4]
         flat = "".join(op[2:] for op in ops.split(";") if op.startswith("b:") and op[2:] != ".")
         # conservative: any CSI opener may turn into Up / Down (also across op boundaries), any 0x09 byte may be a Tab
@@ -1558,13 +1601,13 @@ def c16(ck):
                         idx = 1 + nline + 1
                         if idx < len(st) and st[idx]["calls"] == "-":
                             reason = ("oracle", "help off: the help-shaped line %s was not delivered to the handler" % c.split("b:")[1].split(";")[0])
-                if reason is None and ((has("a") or not u["a"]) and (has("h") or not u["h"]) and has("c")):
+                if reason is None and ((has("a") or not u["a"]) and (has("h") or not u["h"]) and (has("c") or not u["c"])):
                     bst = parse_steps(bo)
                     nohist = lambda P: [" | ".join(f for i_, f in enumerate(st_.split("|")) if i_ != 3) for st_ in P.split(" ; ")]
                     if bst is not None and nohist(p_impl[idx]) != nohist(p_base[idx]):
                         reason = ("oracle", "feature set %s differs from the full build on a session that does not use the disabled facility" % fs)
                 mst = parse_steps(mo)
-                if reason is None and (mst is None or p_impl[idx] != p_model[idx]):
+                if reason is None and c not in fault_cases and (mst is None or p_impl[idx] != p_model[idx]):
                     reason = ("diff", "feature set %s: implementation and model (configured alike) differ" % fs)
                 nontriv += 1
             if reason and bad < 2:
